@@ -51,6 +51,8 @@ def ws2dwcv(y, nodata, llas, robust, out, lopt):
     if n > 4:
         # zero-weight cells must not enter the solve or the residuals (0 * nan is nan)
         yv = np.where(w > 0, y, 0.0)
+        # range of the valid data: reference for "the residual scale collapsed"
+        spread = np.max(yv[w > 0]) - np.min(yv[w > 0])
         z = np.zeros(m)
         r_weights = np.ones(m)
 
@@ -96,9 +98,12 @@ def ws2dwcv(y, nodata, llas, robust, out, lopt):
                 # scale of the residuals of the valid cells that still carry weight
                 carry = w_temp != 0
                 mad = np.median(np.abs(r_arr[carry] - np.median(r_arr[carry])))
-                # all residuals equal (constant or exactly linear data): nothing to
-                # reweight, and the studentised residuals would be 0/0
-                if mad > 0:
+                # when more than half of the residuals are (numerically) equal the MAD
+                # collapses to zero or to rounding noise and says nothing about the
+                # scale of the residuals: keep the weights (also avoids 0/0). The test
+                # is relative to the range of the data, so it does not change when a
+                # constant is added to the series
+                if mad > 1e-9 * spread:
                     u_arr = r_arr / (1.4826 * mad * np.sqrt(1 - gamma.sum() / n))
 
                     new_weights = (1 - (u_arr / 4.685) ** 2) ** 2
